@@ -90,13 +90,18 @@ PreSlotClauses(old, rec, zeroL) ==
       /\ Ident(rec) = Ident(old) /\ rec.ns = old.ns         \* nothing moved between steps
       /\ ("vol" \in DOMAIN old => rec.vol = old.vol)
     THEN {} ELSE {"C05.Continuity"})
-  \cup (IF rec.st = "alive" /\ old.st \in {"initializing", "alive"} THEN {} ELSE {"C05.StatusForward@Pre"})
+  \* (a track marked errored by kill_active / a failed initialisation stays errored: it is only
+  \*  there to be killed, with its energy deposited, by the tracking-cut action of this step)
+  \cup (IF \/ (rec.st = "alive" /\ old.st \in {"initializing", "alive"})
+           \/ (rec.st = "errored" /\ old.st = "errored")
+        THEN {} ELSE {"C05.StatusForward@Pre"})
   \cup (IF rec.volo = -1 \/ rec.vol = rec.volo THEN {} ELSE {"C05.VolumeMatchesPosition@Pre"})
   \cup (IF rec.rL_lim >= zeroL THEN {} ELSE {"C05.LimitNonNegative"})
 
 (* Post: one record per active slot after user_post.  pre = the Pre record of the slot. *)
 PostSlotClauses(pre, rec, twom, zero) ==
-  LET failure == rec.act = "physics-failure"
+  LET errored == pre.st = "errored"      \* not a step: the pseudo-step that kills an errored track
+      failure == rec.act = "physics-failure" \/ errored
       w0 == W(twom, pre.pt, pre.Eq)
       w1 == IF rec.st = "alive" THEN W(twom, rec.pt, rec.Eq)
             ELSE IF rec.out THEN W(twom, rec.pt, rec.Eq)          \* left the world: carried away
@@ -108,7 +113,9 @@ PostSlotClauses(pre, rec, twom, zero) ==
   (IF 2 * Abs(w0 - (w1 + rec.depq + wsec)) <= nterms + 2 THEN {} ELSE {"C01.LedgerTrack"})
   \cup (IF rec.depq >= 0 /\ rec.rE_dep >= zero.E THEN {} ELSE {"C01.DepositNonNegative"})
   \cup (IF Key(rec) = Key(pre) /\ rec.par = pre.par /\ rec.pt = pre.pt THEN {} ELSE {"C02.SameTrack"})
-  \cup (IF rec.ns = pre.ns + 1 THEN {} ELSE {"C02.StepsConsecutive"})
+  \cup (IF (~errored /\ rec.ns = pre.ns + 1) \/ (errored /\ rec.ns = pre.ns) THEN {} ELSE {"C02.StepsConsecutive"})
+  \cup (IF errored => (rec.st = "killed" /\ rec.act = "tracking-cut" /\ rec.secs = <<>> /\ rec.pos = pre.pos)
+        THEN {} ELSE {"C02.ErroredTrackIsKilledInPlace"})
   \cup (IF rec.st \in {"alive", "killed", "errored"} THEN {} ELSE {"C05.StatusForward@Post"})
   \cup (IF rec.rT_t1 >= pre.rT_t0 THEN {} ELSE {"C05.TimeMonotone"})
   \cup (IF rec.rE_E1 <= pre.rE_E0 THEN {} ELSE {"C05.EnergyMonotone"})
@@ -120,7 +127,7 @@ PostSlotClauses(pre, rec, twom, zero) ==
   \cup (IF rec.out => (rec.st = "killed" /\ rec.act = "geo-boundary") THEN {} ELSE {"C05.OutsideIsKilledAtBoundary"})
   \* a failed interaction (secondary storage exhausted): the track stays alive where the
   \* along-step put it, nothing is emitted (energy: LedgerTrack with no secondaries)
-  \cup (IF failure => /\ rec.st = "alive" /\ rec.secs = <<>> /\ rec.nfalse = 0
+  \cup (IF rec.act = "physics-failure" => /\ rec.st = "alive" /\ rec.secs = <<>> /\ rec.nfalse = 0
         THEN {} ELSE {"C16.FailureIsClean"})
   \cup (IF \A k \in DOMAIN rec.secs : rec.secs[k].rE_E > zero.E THEN {} ELSE {"C04.SecondaryEnergyPositive"})
 
